@@ -133,6 +133,11 @@ thread_local! {
     pub static LAST_PANIC: std::cell::RefCell<String> = const { std::cell::RefCell::new(String::new()) };
 }
 
+/// Message of the most recent panic on this thread (harness diagnostics).
+pub fn last_panic() -> String {
+    LAST_PANIC.with(|p| p.borrow().clone())
+}
+
 struct VioAgg {
     count: u64,
     examples: Vec<(u64, String)>,
